@@ -496,4 +496,55 @@ theorem linkedListB_touch (σ : Store) (g : Nat) : ∀ (l : List Ast) (pf : Opti
     simp only [linkedListB, linkedB_touch σ g k pf, linkedListB_touch σ g rest pf]
 end
 
+/-! ### call sites that only clear caches (`_put_slice` tail, `unpar` after an in-place write) -/
+
+theorem touch_cache_stays (σ : Store) (g f : Nat) (h : (σ.fst f).cache = []) : ((touch σ g).fst f).cache = [] := by
+  simp only [touch, upd]; split
+  · rfl
+  · exact h
+
+theorem touch_cache_self (σ : Store) (f : Nat) : ((touch σ f).fst f).cache = [] := by simp [touch, upd]
+
+theorem touchAst_cache_stays (σ : Store) (a f : Nat) (h : (σ.fst f).cache = []) :
+    ((touchAst σ a).fst f).cache = [] := by
+  unfold touchAst; split
+  · exact touch_cache_stays σ _ f h
+  · exact h
+
+theorem touchAst_astF (σ : Store) (a : Nat) : (touchAst σ a).astF = σ.astF := by
+  unfold touchAst; split <;> rfl
+
+theorem touchKids_astF : ∀ (l : List Ast) (σ : Store), (touchKids σ l).astF = σ.astF
+  | [], _ => rfl
+  | k :: rest, σ => by simp only [touchKids]; rw [touchKids_astF rest, touchAst_astF]
+
+theorem touchKids_cache_stays : ∀ (l : List Ast) (σ : Store) (f : Nat), (σ.fst f).cache = [] →
+    ((touchKids σ l).fst f).cache = []
+  | [], _, _, h => h
+  | k :: rest, σ, f, h => by
+    simp only [touchKids]
+    exact touchKids_cache_stays rest _ f (touchAst_cache_stays σ k.id f h)
+
+theorem linkedB_touchAst (σ : Store) (a : Nat) (t : Ast) (pf : Option Nat) :
+    linkedB (touchAst σ a) pf t = linkedB σ pf t := by
+  unfold touchAst; split
+  · exact linkedB_touch σ _ t pf
+  · rfl
+
+theorem linkedB_touchKids : ∀ (l : List Ast) (σ : Store) (t : Ast) (pf : Option Nat),
+    linkedB (touchKids σ l) pf t = linkedB σ pf t
+  | [], _, _, _ => rfl
+  | k :: rest, σ, t, pf => by
+    simp only [touchKids]
+    rw [linkedB_touchKids rest, linkedB_touchAst]
+
+theorem touchParents_cache_stays : ∀ (fuel : Nat) (σ : Store) (g f : Nat), (σ.fst f).cache = [] →
+    ((touchParents σ fuel g).fst f).cache = []
+  | 0, _, _, _, h => h
+  | fuel + 1, σ, g, f, h => by
+    simp only [touchParents]
+    split
+    · exact h
+    · exact touchParents_cache_stays fuel _ _ f (touch_cache_stays σ _ f h)
+
 end Pfst.Links
